@@ -1,22 +1,3 @@
-#![allow(dead_code)]
-mod c09;
-mod c11;
-mod c12;
-mod checks;
-mod engine;
-mod gen;
-mod model;
-#[path = "../../codec/src/refcodec.rs"]
-mod refcodec;
-#[path = "../../codec/src/refmsg.rs"]
-mod refmsg;
-#[path = "../../codec/src/vgen.rs"]
-mod vgen;
-
-mod glue {
-    pub use crate::gen::sv_from_bytes;
-}
-
 fn main() {
-    vcommon::main(&[&checks::C02, &checks::C03, &checks::C04, &checks::C05, &checks::C10, &c09::DEF, &c11::DEF, &c12::DEF])
+    vcommon::main(&bus::defs())
 }
